@@ -42,36 +42,35 @@ type e1Model struct {
 	frag     *emit.Obj // the group fragment object (SyscallGroup.Assemble)
 	fragG    *emit.Graph
 	polFn    *ssa.Function
-	polObjs  map[*ssa.Alloc]*emit.Obj
+	polObjs  map[string]*emit.Obj
 	wholes   map[string]*emit.Whole
 	evals    map[string]*emit.PolicyEval
 	problems []string
-	condFn   *ssa.Function // the emitter that creates per-list and per-condition labels (loop depth 1 and 2)
 }
 
-// condEmitter finds the emitter function that lowers condition lists: the one whose labels are created inside
-// two nested loops (identified by structure, so that renaming or splitting Assemble does not lose it).
-func (m *e1Model) condEmitter() *ssa.Function {
-	if m.condFn != nil || m.fragG == nil {
-		return m.condFn
+// labelRole classifies a label by where it is created in the inlined emitter tree of the group fragment, counted in
+// loop levels across call boundaries (so that moving a loop body into a helper, or renaming, changes nothing):
+// level 0 = the group's own labels (its action), 1 = inside the loop over entries (the entry's exit label),
+// 2 = inside the loop over an entry's lists (list failed), 3 = inside the loop over a list's conditions (next
+// condition).  Labels the builder's own methods create (the implicit fall-through of a one-armed jump) are "builder".
+func labelRole(l *emit.LabelVal) string {
+	switch {
+	case l == nil:
+		return ""
+	case l.Builder:
+		return "builder"
 	}
-	// the function (other than the builder's own methods) that creates labels at the greatest loop depth
-	best := -1
-	for _, n := range m.fragG.Nodes {
-		if n.Kind != emit.EvNew || n.L == nil || n.L.Fn() == nil || n.L.Fn() == m.fragFn {
-			continue
-		}
-		if recv := n.L.Fn().Signature.Recv(); recv != nil {
-			if pt, ok := recv.Type().(*types.Pointer); ok && isNamed(pt.Elem(), load.PkgRoot, "Program") {
-				continue
-			}
-		}
-		if d := n.L.Depth(); d > best {
-			best = d
-			m.condFn = n.L.Fn()
-		}
+	switch l.Cum {
+	case 0:
+		return "group"
+	case 1:
+		return "entry-exit"
+	case 2:
+		return "list-failed"
+	case 3:
+		return "next-cond"
 	}
-	return m.condFn
+	return "other"
 }
 
 func (e *Env) E1() *e1Model {
@@ -337,7 +336,7 @@ func computeValidationFacts(p *load.Program, opsSlice []string) validationFacts 
 
 func buildE1(e *Env) *e1Model {
 	p := e.Host()
-	m := &e1Model{p: p, polObjs: map[*ssa.Alloc]*emit.Obj{}, wholes: map[string]*emit.Whole{}, evals: map[string]*emit.PolicyEval{}}
+	m := &e1Model{p: p, polObjs: map[string]*emit.Obj{}, wholes: map[string]*emit.Whole{}, evals: map[string]*emit.PolicyEval{}}
 	m.opConst, m.opsSlice = operationTables(p)
 	for v := range m.opConst {
 		m.allOps = append(m.allOps, v)
@@ -377,10 +376,6 @@ func buildE1(e *Env) *e1Model {
 	}
 	m.fragG = m.b.Build(m.fragFn, fa[0])
 	m.frag = emit.Link(m.fragG)
-	for _, al := range progAllocs(m.polFn) {
-		g := m.b.Build(m.polFn, al)
-		m.polObjs[al] = emit.Link(g)
-	}
 	for _, arch := range []bool{true, false} {
 		for _, short := range []bool{true, false} {
 			name := fmt.Sprintf("x86_64=%v,short=%v", arch, short)
@@ -391,7 +386,18 @@ func buildE1(e *Env) *e1Model {
 				}
 				return nil
 			}
-			pe.ObjOf = func(al *ssa.Alloc) *emit.Obj { return m.polObjs[al] }
+			pe.ObjOf = func(al *ssa.Alloc, fr *emit.Frame) *emit.Obj {
+				if !isNamed(al.Type().Underlying().(*types.Pointer).Elem(), load.PkgRoot, "Program") {
+					return nil
+				}
+				k := fmt.Sprintf("%p/%s", al, emit.FrameID(fr))
+				if o, ok := m.polObjs[k]; ok {
+					return o
+				}
+				o := emit.Link(m.b.BuildIn(fr, al))
+				m.polObjs[k] = o
+				return o
+			}
 			pe.Eval()
 			m.evals[name] = pe
 			w := emit.AssembleWhole(name, pe.Items)
@@ -416,7 +422,7 @@ func (m *e1Model) resolveSkip(pe *emit.PolicyEval, w *emit.Whole, n *emit.WNode,
 	if o == nil || o.Val == nil {
 		return nil, false
 	}
-	skip := pe.IntForm(o.Val)
+	skip := pe.IntForm(o.Val, it)
 	if !skip.OK {
 		return nil, false
 	}
